@@ -203,7 +203,7 @@ func gen(t *rapid.T) Case {
 
 	n := rapid.IntRange(1, 6).Draw(t, "nRules")
 	for i := 0; i < n; i++ {
-		r := Rule{K: rapid.SampledFrom([]string{"acquire", "acquire", "acquire", "acquire-unknown", "cmd", "cmds", "config", "configs", "interactive"}).Draw(t, "rule")}
+		r := Rule{K: rapid.SampledFrom([]string{"acquire", "acquire", "acquire", "acquire-unknown", "cmd", "cmds", "config", "configs", "interactive", "stall-acquire", "cmd"}).Draw(t, "rule")}
 		r.Target = rapid.IntRange(0, len(c.Levels)-1).Draw(t, "target")
 
 		switch r.K {
@@ -276,6 +276,7 @@ func (c *Case) expectedPath(a, b int) []logged {
 func run(c Case) ev.Verdict {
 	mode := 0
 	pw := -1
+	stallNext, stalled := false, false
 
 	var log []logged
 
@@ -285,12 +286,32 @@ func run(c Case) ev.Verdict {
 	dev.OnLine = func(line string) (string, bool) {
 		log = append(log, logged{mode, line})
 
+		if stalled {
+			return "", true // the device has gone quiet
+		}
+
+		moved := func() (string, bool) {
+			if stallNext {
+				// the device acts on the command but its answer never arrives
+				stallNext, stalled = false, true
+
+				return "", true
+			}
+
+			return "", false
+		}
+
 		if pw >= 0 {
-			if line == secret {
+			ok := line == secret
+			if ok {
 				mode = pw
 			}
 
 			pw = -1
+
+			if ok {
+				return moved()
+			}
 
 			return "", false
 		}
@@ -309,14 +330,14 @@ func run(c Case) ev.Verdict {
 
 				mode = i
 
-				return "", false
+				return moved()
 			}
 		}
 
 		if mode > 0 && c.Levels[mode].Deescalate == line {
 			mode = c.Levels[mode].Parent
 
-			return "", false
+			return moved()
 		}
 
 		return "ok " + fmt.Sprint(len(log)) + "\r\n", false
@@ -329,7 +350,7 @@ func run(c Case) ev.Verdict {
 		options.WithCustomTransport(pipe),
 		options.WithTransportReadSize(c.ReadSize),
 		options.WithReadDelay(time.Duration(c.ReadDelayNS)),
-		options.WithTimeoutOps(time.Duration(c.ReadDelayNS)*400000),
+		options.WithTimeoutOps(time.Duration(c.ReadDelayNS)*20000),
 		options.WithPrivilegeLevels(c.privLevels()),
 		options.WithDefaultDesiredPriv(c.Levels[c.Default].Name),
 		options.WithAuthSecondary(secret),
@@ -392,6 +413,35 @@ func run(c Case) ev.Verdict {
 		case "acquire-unknown":
 			wantErr = util.ErrPrivilegeError
 			opErr = d.AcquirePriv("no-such-level")
+		case "stall-acquire":
+			// an earlier operation that fails half way: the device acts on the first transition of
+			// the path and then goes quiet; the operation times out, later the device shows its
+			// prompt again. Whatever level that left the device in, later operations must cope.
+			path := c.expectedPath(before, r.Target)
+			if len(path) == 0 {
+				continue
+			}
+
+			stallNext = true
+			opErr = d.AcquirePriv(c.Levels[r.Target].Name)
+
+			if opErr == nil || stallNext {
+				return ev.Fail("rule %d stall-acquire(target %d) from level %d: error %v, stall consumed=%v", ri, r.Target, before, opErr, !stallNext)
+			}
+
+			if !errors.Is(opErr, util.ErrTimeoutError) {
+				return ev.Fail("rule %d stall-acquire: error %v, want a timeout error", ri, opErr)
+			}
+
+			// the device catches up
+			stalled = false
+			pipe.Inject([]byte("\r\n" + c.prompt(mode)))
+			time.Sleep(50 * time.Duration(c.ReadDelayNS))
+
+			v.NonTrivial = true
+			v.Classes = append(v.Classes, "failed-operation-left-device-elsewhere")
+
+			continue
 		case "cmd":
 			payload(c.Default)
 			_, opErr = d.SendCommand(r.Lines[0])
